@@ -12,7 +12,7 @@ VERIF = os.path.dirname(os.path.dirname(os.path.abspath(__file__)))
 def finish(prop, tier, seed, mod, joblist, results, lemmas, wall, verbose=False):
     lines = []
     viol, inconc, mism, canary_fail = [], [], [], []
-    tot = {k: 0 for k in ("paths", "decisions", "queries", "obligations", "discharged", "witnesses_validated",
+    tot = {k: 0 for k in ("paths", "decisions", "merges", "queries", "obligations", "discharged", "witnesses_validated",
                           "witnesses_skipped")}
     solver_time = 0.0
     files = {}
@@ -71,7 +71,8 @@ def finish(prop, tier, seed, mod, joblist, results, lemmas, wall, verbose=False)
     ev = {
         "property_id": prop, "tier": tier, "seed": seed, "level": level,
         "coverage": {
-            "states": max(tot["paths"], 0), "transitions": max(tot["decisions"], 0),
+            "states": max(tot["paths"], 0), "transitions": tot["decisions"] + tot["merges"],
+            "branch_decisions_forked": tot["decisions"], "state_merged_branches": tot["merges"],
             "traces_validated_against_impl": tot["witnesses_validated"],
             "samples": samples or [{"note": "no path produced a sample"}],
             "obligations": tot["obligations"], "discharged": tot["discharged"],
@@ -87,7 +88,8 @@ def finish(prop, tier, seed, mod, joblist, results, lemmas, wall, verbose=False)
             "known_findings": known_ev,
             "exhaustive": False,
             "explanation": "states = execution paths of the real source explored symbolically; transitions = branch "
-                           "decisions; every obligation is the negated property on one path, discharged by z3 (unsat) "
+                           "decisions taken by the path explorer plus data-dependent branches kept state-merged as If-terms "
+                           "(conditional stores of the vectorised code); every obligation is the negated property on one path, discharged by z3 (unsat) "
                            "for all inputs within the bounds; traces_validated = solver-chosen path witnesses executed "
                            "on the real numpy/pandas stack and compared with the symbolic result",
         },
@@ -105,6 +107,8 @@ def finish(prop, tier, seed, mod, joblist, results, lemmas, wall, verbose=False)
         if key in seen:
             continue
         seen.add(key)
+        if len(seen) > 12:
+            continue
         lines.append(f"VIOLATION property={prop} replay={v.get('replay')}")
         lines.append(f"  job={v['job']} violated='{v['violated']}' inputs={json.dumps(v['inputs'])[:400]} "
                      f"real={json.dumps(v['real_outcome'])[:200]}")
